@@ -2,6 +2,7 @@
 CONSTANT SubmeshStep = 40
 CONSTANT AnimBoneRule = "table"
 CONSTANT RelocAdvanceAlways = FALSE
+CONSTANT CollectSkipRule = "all-empty"
 CONSTANT SaveTruncates = TRUE
 CONSTANT ViewBatchBytes = 24
 INIT Init
